@@ -39,6 +39,9 @@ def gen(seed, tier):
         "kind": kind,
         "interval": interval,
         "periods": periods,
+        # the service may be cancelled and its run() started again on the same object: it acts again at
+        # once and then once per interval, counted from the new start
+        "restart": ({"gap": rng.choice([0.0, 0.5, 1.0, 3.0]) * interval, "periods": rng.randint(1, 5)} if rng.random() < 0.15 else None),
         "start": rng.choice([0.0, 0.0, eps, interval, 3.5]),
         "pool": {
             "supply": rng.choice([0.0, 1.0, 4.0, 8.0, 16.0, 100.0]),
@@ -275,6 +278,9 @@ def run(scenario, tape_values):
         await trio.sleep_until(start)
         service = build()
         ctx["service"] = service
+        restart = sc.get("restart")
+        if restart:
+            nursery = await nursery.start(_holder)  # a nursery of its own: cancelled at the horizon
         await start_service(world, nursery, "service", service, "C09/run-raised/" + kind + "/%s")
         for op in script:
             t = float(op["t"])
@@ -312,6 +318,16 @@ def run(scenario, tape_values):
                 world.op = None
         await trio.sleep_until(horizon + interval / 4)
         world.log("horizon")
+        if restart:
+            nursery.cancel_scope.cancel()
+            start2 = horizon + interval / 4 + restart["gap"]
+            await trio.sleep_until(start2)
+            world.log("restart", start2=start2)
+            seg2 = await ctx["outer"].start(_holder)
+            await start_service(world, seg2, "service", service, "C09/run-raised/" + kind + "/%s")
+            await trio.sleep_until(start2 + restart["periods"] * interval + interval / 4)
+            world.log("horizon2")
+            seg2.cancel_scope.cancel()
 
     async def factory_observer(world):
         # after every boundary: who is active, what do they demand, what was requested
@@ -326,12 +342,25 @@ def run(scenario, tape_values):
                 return
             world.log("factory-state", k=k, active=active, requested=fp._demand)
 
+    async def _holder(task_status=trio.TASK_STATUS_IGNORED):
+        async with trio.open_nursery() as inner:
+            task_status.started(inner)
+            await trio.sleep_forever()
+
     async def main(world, nursery):
+        ctx["outer"] = nursery
         if kind == "factory":
             nursery.start_soon(factory_observer, world, name="observer")
         await env(world, nursery)
 
     world.run(main)
+    rs = next((e for e in world.events if e["kind"] == "restart"), None)
+    if rs is not None:
+        # second life of the same service object: judged on its own, against its own start
+        seg2 = [e for e in world.events if e["seq"] > rs["seq"]]
+        world.events[:] = [e for e in world.events if e["seq"] < rs["seq"]]
+        _canonical_times(seg2, rs["start2"], interval)
+        _oracle_restart(world, seg2, kind, interval, sc["restart"]["periods"], rs["start2"])
     _canonical_times(world.events, start, interval)
     _oracle(world, sc, kind, interval, periods, start, params, horizon)
     shape = _shape(world, sc, kind, interval, start)
@@ -389,6 +418,26 @@ def _shape(world, sc, kind, interval, start):
     periods = sc["periods"]
     bucket = periods if periods <= 12 else (periods // 20) * 20
     return [kind, interval, bucket, sorted(set(ops)), len(ops), sc.get("params", {}).get("via")]
+
+
+def _oracle_restart(world, ev, kind, interval, periods, start):
+    """After a cancel + restart the service acts at start2 + k * interval again (controllers: from
+    k = 0, "one regulation step immediately"), and nowhere else."""
+    V = world.violate
+    svc = [e for e in ev if e["actor"] == "service" and e["kind"] in ("read", "write", "rule-call", "factory-call")]
+    first_k = 0 if kind in ("linear", "relsupply", "stepwise", "switch") else 1
+    expected = [start + k * interval for k in range(first_k, periods + 1)]
+    allowed = set(expected) | {start}
+    for e in svc:
+        if e["t"] not in allowed and e["t"] <= start + periods * interval:
+            V("C09/off-boundary-touch/%s/restarted" % kind, "restarted service touched %s at t=%r, not on %r + k*%r" % (e.get("pool", e["kind"]), e["t"], start, interval))
+            return
+    if kind in ("linear", "relsupply", "stepwise", "switch"):
+        touched = {e["t"] for e in svc}
+        for t in expected:
+            if t not in touched:
+                V("C09/missed-period/%s/restarted" % kind, "no regulation step of the restarted service at t=%r (restart at %r, interval %r, k=%r)" % (t, start, interval, (t - start) / interval))
+                return
 
 
 def _oracle(world, sc, kind, interval, periods, start, params, horizon):
